@@ -365,7 +365,10 @@ func runFaultSweep(t *testing.T, spec kernel.Spec, prop string, idx int) *kernel
 	}
 	runPlan = func(k int, kind string, pl *plan) (o *kernel.Outcome, calls int, methods []string, applicable bool) {
 		o = inBubble(t, spec, func(o *kernel.Outcome, tape *kernel.Tape) {
-			caps := world.Caps{ClientCredentials: true, TokenExchange: true, Device: true, FromRequest: spec.Seed%3 == 0}
+			// optional storage capabilities alternate with the cycle through the flows (not with the seed itself, whose
+			// residues are tied to the flow index: a capability would then never meet some flows)
+			cyc := spec.Seed / uint64(len(faultFlows)*2)
+			caps := world.Caps{ClientCredentials: true, TokenExchange: true, Device: true, FromRequest: cyc%2 == 0, EndFromRequest: cyc%3 != 1, ExchangeVerifier: cyc%2 == 1}
 			w, err := world.NewStd(o, tape, world.StdOptions{Router: router, ForceCaps: &caps, AllGrants: true, ForceConfig: func(c *op.Config) {
 				c.AuthMethodPrivateKeyJWT, c.GrantTypeRefreshToken = true, true
 			}})
